@@ -551,6 +551,24 @@ func ValidTopicFilter(mustUTF8 bool, p []byte) bool {
 	return true
 }
 
+// readRemaining reads the n bytes that make up the rest of a packet. Large buffers grow with the
+// bytes that actually arrive, so that a fixed header claiming a huge remaining length does not make
+// the decoder allocate that much memory before the data is there.
+func readRemaining(r io.Reader, n int) ([]byte, error) {
+	const eager = 64 * 1024
+	if n <= eager {
+		b := make([]byte, n)
+		_, err := io.ReadFull(r, b)
+		return b, err
+	}
+	var buf bytes.Buffer
+	_, err := io.CopyN(&buf, r, int64(n))
+	if err == io.EOF {
+		err = io.ErrUnexpectedEOF
+	}
+	return buf.Bytes(), err
+}
+
 // TopicMatch returns whether the topic and topic filter is matched.
 func TopicMatch(topic []byte, topicFilter []byte) bool {
 	var spos int
